@@ -19,7 +19,7 @@ import z3
 from pyvc.harness import Scenario
 from pyvc.interp import Interp, PyRaise
 from pyvc.values import SObj, SInt, Opaque, term
-from .irmodel import World, NArr
+from .irmodel import World, NArr, OpRecorder
 from .c10_version import GraphLike
 
 REL = "onnxscript/optimizer/_constant_folding.py"
@@ -474,3 +474,97 @@ SCENARIOS += [
              trusted=["ir.convenience.replace_nodes_and_values(root, insertion_point, old_nodes, new_nodes, old_values, new_values) (onnx_ir)"]),
     Scenario("C03.folding.visit_node", s_visit_node, F("FoldConstantsPass.visit_node")),
 ]
+
+
+def s_if_op(ctx):
+    """if_op partial evaluator: If with a constant condition is replaced by the nodes of the SELECTED branch; the If
+    outputs become that branch's outputs (same order); the other branch is not touched; the branch graph is emptied so
+    that its nodes and values are free to move; its initializers go to the enclosing graph; an unknown condition keeps
+    the node."""
+    import onnx_ir as ir
+    from .c10_version import GraphLike
+    cf = _cf()
+    I = Interp(ctx)
+    state = I.instantiate(cf.OptimizerState, [], {})
+    cond = [None, True, False][ctx.choose(3, "condition known as")]
+    I.models[cf._get_bool_value] = lambda interp, v: cond
+
+    def mk_branch(tag):
+        n_nodes = 1 + ctx.choose(2, f"{tag} has two nodes")
+        nodes = []
+        for i in range(n_nodes):
+            nd = SObj(ir.Node, f"{tag}_n{i}")
+            o = SObj(ir.Value, f"{tag}_v{i}")
+            o.fields["name"] = f"{tag}_v{i}"
+            nd.fields.update(name=f"{tag}_n{i}", outputs=[o])
+            nodes.append(nd)
+        g = GraphLike(list(nodes), {})
+        g.outputs = [nodes[-1].fields["outputs"][0]]
+        if ctx.choose(2, f"{tag} returns the same value twice") == 1:
+            g.outputs = g.outputs * 2
+        g.initializers = {}
+        removed = []
+        g.remove = lambda ns: (removed.extend(ns), [list.remove(g, x) for x in list(ns)])[0]
+        g.remove._pyvc_native = True
+        g.removed = removed
+        a = SObj(ir.Attr, f"{tag}_attr")
+        a.fields.update(type=ir.AttributeType.GRAPH, name=f"{tag}_branch")
+
+        def as_graph():
+            raise AssertionError
+        I.models[as_graph] = lambda interp: g
+        a.fields["as_graph"] = as_graph
+        return g, a, nodes
+    tg, ta, tn = mk_branch("then")
+    eg, ea, en = mk_branch("else")
+    n_out = max(len(tg.outputs), len(eg.outputs))
+    if len(tg.outputs) != len(eg.outputs):
+        ctx.cover("branches with different output counts: not a valid If")
+        return
+    outs = []
+    for i in range(n_out):
+        o = SObj(ir.Value, f"if_out{i}")
+        o.fields["name"] = f"y{i}"
+        outs.append(o)
+    has_graph = ctx.choose(2, "the If node is attached to a graph") == 0
+    main = SObj(ir.Graph, "main")
+    node = SObj(ir.Node, "if_node")
+    from .irmodel import AttrDict
+    node.fields.update(op_type="If", name="ifn", inputs=[SObj(ir.Value, "cond")], outputs=outs, attributes=AttrDict({"then_branch": ta, "else_branch": ea}),
+                       graph=(main if has_graph else None))
+    moved = []
+    I.models[cf._move_initializers_to_graph] = lambda interp, src, dst: moved.append((src, dst))
+    t_before, e_before = (list(tg), list(tg.outputs)), (list(eg), list(eg.outputs))
+    try:
+        r = I.run_closure(I.closure_of(cf.if_op), [node, OpRecorder(), state], {})
+    except PyRaise as e:
+        ctx.check("C04.folding.if_op.never_raises", False, "C04: 'return without raising'")
+        return
+    if cond is None:
+        ctx.check("C03.folding.if_op.kept_when_the_condition_is_not_a_known_constant", r is None and (list(tg), list(tg.outputs)) == t_before and
+                  (list(eg), list(eg.outputs)) == e_before and not moved, CL03)
+        return
+    sel, sel_before, oth, oth_before = (tg, t_before, eg, e_before) if cond else (eg, e_before, tg, t_before)
+    ok = r is not None and not isinstance(r, OpRecorder)
+    ctx.check("C03.folding.if_op.constant_condition_inlines_a_branch", ok, CL03)
+    if not ok:
+        return
+    f = r.fields if isinstance(r, SObj) else None
+    new_outputs = list(f["new_outputs"]) if f else list(r.new_outputs)
+    new_nodes = list(f["new_nodes"]) if f else list(r.new_nodes)
+    ctx.check("C03.folding.if_op.replacement_is_the_selected_branch_then_iff_true", new_nodes == sel_before[0] and all(a is b for a, b in zip(new_outputs, sel_before[1]))
+              and len(new_outputs) == len(sel_before[1]), CL03 + " — If(cond) computes then_branch when cond is true, else_branch otherwise")
+    ctx.check("C03.folding.if_op.the_other_branch_is_untouched", (list(oth), list(oth.outputs)) == oth_before, CL03)
+    ctx.check("C04.folding.if_op.selected_branch_graph_is_emptied_before_its_nodes_move", list(sel) == [] and list(sel.outputs) == [] and sel.removed == sel_before[0],
+              "C04: 'the result is a valid model' — a node belongs to one graph")
+    ctx.check("C04.folding.if_op.branch_initializers_move_to_the_enclosing_graph", moved == ([(sel, main)] if has_graph else []), "C04: nothing the branch needs is lost")
+    names = [v.fields["name"] for nd in new_nodes for v in nd.fields["outputs"]]
+    last = sel_before[1][-1]
+    ctx.check("C04.folding.if_op.output_value_takes_the_name_of_an_If_output", last.fields["name"] in [o.fields["name"] for o in outs],
+              "C04: 'same graph input/output names' — an If output that is a graph output keeps its name")
+    ctx.check("C04.folding.if_op.moved_nodes_get_names_prefixed_by_the_If_node", all(nd.fields["name"].startswith("ifn_") for nd in new_nodes), "C04: 'node names are unique'")
+
+
+SCENARIOS.append(Scenario("C03.folding.if_op", s_if_op, F("if_op", "if_op.rename"), kind="bounded",
+                          bound="branches of 1-2 nodes, 1-2 outputs (possibly the same value twice)",
+                          trusted=["ir.Graph.remove / outputs (onnx_ir); _move_initializers_to_graph has its own contract"]))
